@@ -188,7 +188,7 @@ Print Assumptions C14_example_default.
 
 (* ---- the standard transport's decisions are the source's: Standard.openBase translated statement
    by statement on this run (gen/decide.go -> GeneratedSkel.standard_open_base_code) ---- *)
-From Scrapli Require Import DecideLang GeneratedSkel Decide.
+From Scrapli Require Import DecideLang GeneratedSkel DecideStd.
 
 (* for every configuration: the host-key policy installed (insecure ONLY when strict checking is
    off; the known-hosts callback of the configured file otherwise; an error before dialling when
@@ -200,3 +200,12 @@ Theorem C14_std_open_base_is_source : forall c ciphers kexs,
 Proof. exact standard_open_base_is_source. Qed.
 
 Print Assumptions C14_std_open_base_is_source.
+
+(* every test that the translated functions of this property make is one the environments of their
+   ties were written for: a test that is new in the source breaks this (an unknown equality would
+   otherwise evaluate to false without notice) *)
+From Scrapli Require Import DecideLang GeneratedSkel DecideStd.
+Theorem C14_source_tests_known :
+  tests_known standard_open_base_code standard_open_base_known = true.
+Proof. exact standard_open_base_tests_known. Qed.
+Print Assumptions C14_source_tests_known.
